@@ -232,6 +232,12 @@ def cwrite_harness(st, nbits, dt, nchans):
             hdr = StreamHeader(nchans, SInt(n), 8)
             out = dict(n=n, viol=[], err=None)
             try:
+                # history: an earlier, unrelated depth-changing write from another header must leave no trace
+                w0 = StreamHeader(2, SInt(z3.IntVal(4)), 8).prep_outfile("pre.fil", nbits=16 if nbits != 16 else 32)
+                w0.close()
+            except Exception:  # noqa: BLE001
+                pass
+            try:
                 w = hdr.prep_outfile("o.fil", nbits=nbits)
                 w.cwrite(arr)
                 w.close()
